@@ -67,8 +67,9 @@ func (in *Interp) intrinsic(caller *frame, name string, args []value, pos token.
 	case "AnyAtom":
 		nm := in.argStr(args[0])
 		id := in.newSym(64, "atom_"+nm)
-		in.assert(ULt(alen(id), BVu(64, 1<<20)))
-		in.assert(ULt(BVu(64, 0), alen(id))) // atoms are non-empty (distinct atoms must be distinct strings)
+		// atoms are short non-empty strings (2..8 bytes): distinct atoms replay as distinct letter strings
+		in.assert(ULe(alen(id), BVu(64, 8)))
+		in.assert(ULe(BVu(64, 2), alen(id)))
 		in.addInput(nm, "atom", id)
 		return &Str{Kind: sAtom, Atom: id, Name: nm}
 	case "Choose":
@@ -125,6 +126,9 @@ func (in *Interp) intrinsic(caller *frame, name string, args []value, pos token.
 	case "SymbolicMapOrder":
 		in.symMapOrder = args[0].(*Term).IsTrue()
 		return nil
+	case "IgnorePanics":
+		in.expectPanic = true
+		return nil
 	case "SetUnwind":
 		in.unwind = in.concreteInt(args[0], "unwind")
 		return nil
@@ -153,6 +157,15 @@ func (in *Interp) intrinsic(caller *frame, name string, args []value, pos token.
 		return And(ULe(args[1].(*Term), c), ULe(c, args[2].(*Term)))
 	case "IteU64":
 		return Ite(args[0].(*Term), args[1].(*Term), args[2].(*Term))
+	case "HexDigit":
+		n := BAnd(args[0].(*Term), BVu(8, 15))
+		up := args[1].(*Term)
+		letter := Ite(up, Add(n, BVu(8, 'A'-10)), Add(n, BVu(8, 'a'-10)))
+		return Ite(ULt(n, BVu(8, 10)), Add(n, BVu(8, '0')), letter)
+	case "AnyF64Bits":
+		t := in.newSym(64, in.argStr(args[0]))
+		in.addInput(in.argStr(args[0]), "u64", t)
+		return &Flt{IsSym: true, Bits: t}
 	case "SameObject":
 		return Bool(sameObject(args[0], args[1]))
 	}
